@@ -87,6 +87,26 @@ NOT_DECIDED = [
 ]
 
 
+def _set_valued(t):
+    """Is the value term certainly a set (iteration in hash order)?"""
+    if t[0] == "new":
+        t = t[2]
+    if t[0] in ("set", "setcomp"):
+        return True
+    if t[0] in ("call", "callv"):
+        f = t[1]
+        if f in (("global", "set"), ("global", "frozenset")):
+            return True
+        if f[0] == "attr" and f[2] in ("difference", "union", "intersection",
+                                       "symmetric_difference") and \
+                _set_valued(f[1]):
+            return True
+    if t[0] == "binop" and t[1] in ("Sub", "BitOr", "BitAnd", "BitXor") and \
+            (_set_valued(t[2]) or _set_valued(t[3])):
+        return True
+    return False
+
+
 def _public(q):
     return not any(part.startswith("_") and not (
         part.startswith("__") and part.endswith("__"))
@@ -361,6 +381,38 @@ def check(program, rep):
                                     "random" in c.lower()):
                                 okr = False
                                 bad = n
+                # which draw goes to which of the caller's items: a loop
+                # that draws once per element of a SET visits the elements
+                # in hash order - for ordinary objects (hash = address) and
+                # strings (randomised hashing) an order that differs from
+                # run to run, so a seeded generator no longer pins the
+                # result
+                for lp in ast.walk(fn):
+                    if not isinstance(lp, ast.For):
+                        continue
+                    draws = [c_ for c_ in ast.walk(lp) if isinstance(
+                        c_, ast.Call) and call_name(c_)[0] in RNG_METHODS
+                        and call_name(c_)[1] is not None and
+                        chain(call_name(c_)[1]) in ("random", "self.random")]
+                    if not draws:
+                        continue
+                    try:
+                        from ..terms import Terms as _Terms, plain as _plain
+                        TT = fn.__dict__.get("_c17_terms") or _Terms(fn)
+                        fn.__dict__["_c17_terms"] = TT
+                        it_ = _plain(TT.term(lp.iter,
+                                             TT.cfg.loop_head[id(lp)]))
+                    except (AnalysisError, KeyError, RecursionError):
+                        continue
+                    if _set_valued(it_):
+                        rep.bad("C17-R4", inst, "draws per element of a set",
+                                "%s draws from the generator once per "
+                                "element of %s, a set: the elements come in "
+                                "hash order, which for ordinary objects and "
+                                "strings is not fixed by the arguments, so "
+                                "the same call with the same seed gives "
+                                "different results" % (
+                                    q, unparse(lp.iter)), lp)
                 if okr:
                     rep.ok("C17-R4", inst, "all random draws use the RNG "
                            "the caller supplied", fn)
